@@ -10,7 +10,9 @@ import (
 func init() {
 	commands["C01"] = func(o Opts) { runDBProfile(o, profC01, nil) }
 	commands["C03"] = func(o Opts) { runDBProfile(o, profC03, postC03) }
-	preRecords["C03"] = func(work string) []Record { return append(append(goldenRecords(work), c03OpenFaults(work)...), c03TwoDatabases(work)...) }
+	preRecords["C03"] = func(work string) []Record {
+		return append(append(append(goldenRecords(work), c03OpenFaults(work)...), c03TwoDatabases(work)...), c03BigValues(work)...)
+	}
 	commands["C06"] = func(o Opts) { runDBProfile(o, profC06, nil) }
 	preRecords["C06"] = func(work string) []Record {
 		var out []Record
@@ -104,7 +106,7 @@ var profC09 = &dbProfile{
 			{ID: 3, Rules: []c07Rule{{Actions: []string{"info", "put"}, Secrets: [][]byte{[]byte("*")}}}}}
 	},
 	SaveFailP: 0.08, // a refused save (of a first put above all) must leave "not found", not a half-made secret
-	Weights: map[string]int{"put": 20, "activate": 16, "delver": 8, "del": 5, "get": 6, "getcond": 45},
+	Weights:   map[string]int{"put": 20, "activate": 16, "delver": 8, "del": 5, "get": 6, "getcond": 45},
 	Nontrivial: func(in DBInput, obs []stepObs) bool {
 		nc, val := 0, 0
 		for i, st := range in.Ops {
